@@ -156,6 +156,9 @@ func Monitor(spec *Spec, tr *Trace) []Finding {
 					add("C16", "graph with a cycle/definition error: task t%d was started", t)
 				}
 			}
+			if m.Cycle && !m.DefErr && tr.SecondRun && !tr.SecondIsCycle && gi == 0 {
+				add("C16", "cyclic graph with an otherwise error-free definition, Run called a second time: error %q is not ErrorGraphHasCycle", tr.SecondErr)
+			}
 			if m.Cycle && !m.DefErr && tr.RunErr[gi] != "" && !tr.ErrIsCycle[gi] {
 				add("C16", "cyclic graph with an otherwise error-free definition: error %q is not ErrorGraphHasCycle", tr.RunErr[gi])
 			}
@@ -603,7 +606,18 @@ func Monitor(spec *Spec, tr *Trace) []Finding {
 		if tr.InnerErr != "" && tr.CancelSeq == 0 {
 			add("C15", "nested buffered graph: Run returned %q", tr.InnerErr)
 		}
-		for k := 0; k < 3; k++ {
+		for k := 0; k < 3 && spec.NestedPlain; k++ {
+			// an unbuffered inner graph leaves the context alone: its tasks write into the outer task's buffer
+			for j := 1; j <= 2; j++ {
+				if strings.Count(tr.Output, fmt.Sprintf("<g7:t%d:1:%d/2>", k, j)) != 1 {
+					add("C15", "nested unbuffered graph: chunk %d of inner task i%d is not part of the outer graph's buffered output (it left through another stream)", j, k)
+				}
+			}
+		}
+		if spec.NestedPlain {
+			tr.Output = regexp.MustCompile(`<g7:t\d+:1:\d/2>`).ReplaceAllString(tr.Output, "")
+		}
+		for k := 0; k < 3 && !spec.NestedPlain; k++ {
 			block := fmt.Sprintf("<g7:t%d:1:1/2><g7:t%d:1:2/2>", k, k)
 			if strings.Count(tr.InnerOutput, block) != 1 {
 				add("C15", "nested buffered graph: the output of inner task i%d did not reach the inner graph's writer as one contiguous block (inner writer received %q)", k, tr.InnerOutput)
